@@ -3,7 +3,7 @@ import os, sys
 import importlib
 import vlib, proglib, crashlib
 
-PROP_FILES = ["Properties_C03_shape.v", "Properties_C03_open.v"]
+PROP_FILES = ["Properties_C03_shape.v", "Properties_C03_open.v", "Properties_C03_repair.v", "Properties_compose.v"]
 STATS_COMPARED = [0]
 
 
